@@ -1,6 +1,7 @@
 """C10 — writer streams: flushed bytes are final, and complete when no sized master is open."""
 from lib.runner import Case
 from props.common import *
+from props.c19 import failing_op, chain_at, KINDS as FAIL_KINDS
 
 ID = "C10"
 RULE = ("X-mode-p cases: a random conformant call sequence (random presentation, known/unknown/explicit-width masters, raw writes, "
@@ -8,6 +9,8 @@ RULE = ("X-mode-p cases: a random conformant call sequence (random presentation,
         "(EOF closing off).  Oracle: byte counts never decrease (the destination is append-only, so earlier bytes are a prefix); after a "
         "successful element / Full / End write with no known-size master open the parse equals exactly the tags accepted so far; while a "
         "known-size master is open nothing is handed over; after flush/into_inner everything parses (EOF closing on) to the full document. "
+        "In a third of the cases one call that must be rejected (the ten kinds of C19) is inserted at a random position: the same must hold "
+        "for all other calls (a rejected call must not change when later bytes are handed over). "
         "non-trivial = at least 2 checkpoints where the parse was compared; distinct = distinct case line")
 TRUSTED = TRUSTED_BASE
 ASSUMPTIONS = ASSUME_BASE
@@ -28,7 +31,14 @@ def generate(rng, tier):
         if rng.random() < 0.3:
             while ops and ops[-1][1][0] == "e" and rng.random() < 0.7:
                 ops.pop()
-        meta = {"ops": [(o, E.tag_str(t)) for o, t in ops], "final": final}
+        rej = None
+        if rng.random() < 0.35:
+            pos = rng.randint(0, len(ops))
+            fo = failing_op(rng, sp, rng.choice(FAIL_KINDS), chain_at(ops, pos))
+            if fo is not None:
+                ops = ops[:pos] + [fo] + ops[pos:]
+                rej = pos
+        meta = {"ops": [(o, E.tag_str(t)) for o, t in ops], "final": final, "rej": rej}
         cases.append(Case(["X %s %s %s p" % (sp.s(), ops_line(ops, final), E.cfg_str(eof=0)),
                            "X %s %s %s f" % (sp.s(), ops_line(ops, final), E.cfg_str(eof=1))], "doc", meta))
     return cases
@@ -51,7 +61,8 @@ def checkpoints(ops):
 
 
 def nontrivial(case, model_out):
-    return sum(1 for _, c in checkpoints(case.meta["ops"]) if c) >= 2
+    ops = [x for i, x in enumerate(case.meta["ops"]) if i != case.meta.get("rej")]
+    return sum(1 for _, c in checkpoints(ops) if c) >= 2
 
 
 def close_all(tags):
@@ -99,12 +110,24 @@ def oracle(case, outs):
     wt, dest = w_split(p[0] + " | " + p[1])
     if wt is None:
         return "malformed: %s" % outs[0][:300]
-    if any(not x.startswith("OK@") for x in wt):
+    rej = case.meta.get("rej")
+    if rej is not None and rej < len(wt) and wt[rej].startswith("OK@"):
+        return None   # the inserted call happened to be acceptable: not a case of this family
+    if any(not x.startswith("OK@") for i, x in enumerate(wt) if i != rej):
         return "a call of a conformant sequence was rejected: %s -> %s" % (case.lines[0][:400], " ".join(wt))
+    if rej is not None:
+        ops = [x for i, x in enumerate(ops) if i != rej]
+        if rej < len(wt):
+            before_r = int(wt[rej - 1].rsplit("@", 1)[1]) if rej else 0
+            if int(wt[rej].rsplit("@", 1)[1]) < before_r:
+                return "byte count decreased at the rejected call: %s" % " ".join(wt)
+        wt = [x for i, x in enumerate(wt) if i != rej]
     counts = [int(x.rsplit("@", 1)[1]) for x in wt]
     if any(b < a for a, b in zip(counts, counts[1:])):
         return "byte count decreased: %s" % counts
     brackets = p[2][1:-1].split("] [") if p[2] else []
+    if rej is not None:
+        brackets = [x for i, x in enumerate(brackets) if i != rej]
     cps = checkpoints(ops)
     accepted = []
     held_at = None
